@@ -220,12 +220,19 @@ def convolve_with_types(ctx: Ctx, geom, jnp, n):
     """GeometricImage.convolve_with: order k+k', parity p+p' is how the result transforms"""
     rng = ctx.rng
     for it in range(n):
-        d = 2
-        c = gen_sym_case(ctx, d)
+        d = 2 if it % 3 else 3
+        c = gen_sym_case(ctx, d, small=(d == 3))
         c["img"] = c["img"][:1, :1]; c["flt"] = c["flt"][:1, :1]
         pI, pF = int(rng.integers(0, 2)), int(rng.integers(0, 2))
         gs = refs.signed_perms(d)
         g = gs[int(rng.integers(1, len(gs)))]
+        if d == 3:
+            # axis 3-cycles with mixed flags: the only elements for which a row/column slip in the flag
+            # transport of the object-level action shows
+            cyc = [o for o in gs if all(int(np.argmax(np.abs(o[i]))) != i for i in range(3))]
+            g = cyc[int(rng.integers(len(cyc)))]
+            if len(set(c["torus"])) == 1:
+                c["torus"][int(rng.integers(3))] = not c["torus"][0]
         pad = c["padding"]
         if isinstance(pad, list):
             pad = tuple(tuple(p) for p in pad)
@@ -253,6 +260,16 @@ def convolve_with_types(ctx: Ctx, geom, jnp, n):
             bad.append(f"declared type ({out.k},{out.parity}) != ({c['kI'] + c['kF']},{(pI + pF) % 2})")
         if got.shape != want.shape or not np.array_equal(got, want):
             bad.append("result does not transform with its declared (k, parity)")
+        # entirely through the object-level API: the transformed images carry their own flags
+        try:
+            oA = mk(c["img"][0, 0], pI, c["torus"]).times_group_element(np.asarray(g))
+            oC = mk(c["flt"][0, 0], pF, c["torus"]).times_group_element(np.asarray(g))
+            out3 = oA.convolve_with(oC, 1, pad2, None if c2["ld"] is None else tuple(c2["ld"]), tuple(c2["rd"]))
+            got3 = np.rint(np.asarray(out3.data)).astype(np.int64)
+            if got3.shape != want.shape or not np.array_equal(got3, want):
+                bad.append("(g.A).convolve_with(g.C) computed through GeometricImage.times_group_element differs from g.(A*C)")
+        except Exception as e:
+            bad.append("object-level transformed call raised: " + repr(e)[:200])
         if bad:
             ctx.violation("oracle", "convolve_with: " + "; ".join(bad), dict(desc, image=jarr(c["img"]), filter=jarr(c["flt"])))
 
@@ -291,4 +308,4 @@ def run(ctx: Ctx):
                 check_equivariance(ctx, geom, jnp, c, g, pI, pF, idx, with_model=(gi % 3 == 0))
                 idx += 1
     shift_cases(ctx, geom, jnp, 8 if ctx.tier == "quick" else 80)
-    convolve_with_types(ctx, geom, jnp, 12 if ctx.tier == "quick" else 150)
+    convolve_with_types(ctx, geom, jnp, 24 if ctx.tier == "quick" else 240)
